@@ -39,6 +39,7 @@ type StoredKey struct {
 type Key struct {
 	Name string
 	Bits int
+	Z128 bool // toy modulus with Lstatzk=128 (needed where responses of 2048-bit-class length occur)
 	Pk   *gabikeys.PublicKey
 	Sk   *gabikeys.PrivateKey
 }
@@ -76,7 +77,7 @@ func (k *StoredKey) Build() (*Key, error) {
 	}
 	pk.Params = ToyParams(k.Bits, k.Lm, k.Lstatzk)
 	pk.Issuer = k.Name
-	return &Key{Name: k.Name, Bits: k.Bits, Pk: pk, Sk: sk}, nil
+	return &Key{Name: k.Name, Bits: k.Bits, Pk: pk, Sk: sk, Z128: k.Bits < 1024 && k.Lstatzk == 128}, nil
 }
 
 var (
@@ -141,7 +142,25 @@ func KeyNames(bits int) []string {
 	}
 	var out []string
 	for _, n := range keyNames {
+		if keys[n].Z128 {
+			continue
+		}
 		if bits == 0 || keys[n].Bits == bits {
+			out = append(out, n)
+		}
+	}
+	return out
+}
+
+// KeyNamesZ128 lists the toy keys with Lstatzk=128 parameters.
+func KeyNamesZ128() []string {
+	keysOnce.Do(loadKeys)
+	if keysErr != nil {
+		panic(keysErr)
+	}
+	var out []string
+	for _, n := range keyNames {
+		if keys[n].Z128 {
 			out = append(out, n)
 		}
 	}
